@@ -313,3 +313,110 @@ mod tests {
         assert_raw_stream::<&mut std::fs::File>();
     }
 }
+
+/// Seam for deterministic schedule simulation, only compiled with `--cfg anstyle_verif`
+///
+/// `std::io::Stdout`'s lock lives inside `std`, out of reach of a controlled scheduler.  This lets
+/// a verification harness hand [`AutoStream`][crate::AutoStream] / [`StripStream`][crate::StripStream]
+/// a stand-in whose lock it owns, with the same locking shape as `Stdout` / `StdoutLock`.
+#[cfg(all(anstyle_verif, not(windows)))]
+#[allow(missing_docs)]
+pub mod verif {
+    use super::{private, AsLockedWrite, IsTerminal, RawStream};
+
+    /// A shared, lockable byte sink: the `Stdout` role
+    pub trait Lockable: std::io::Write {
+        /// The `StdoutLock` role
+        type Guard<'a>: std::io::Write + 'a
+        where
+            Self: 'a;
+
+        fn lock_guard(&mut self) -> Self::Guard<'_>;
+        fn is_terminal(&self) -> bool;
+    }
+
+    /// Makes a [`Lockable`] a [`RawStream`], mirroring the impls for `std::io::Stdout`
+    #[derive(Debug)]
+    pub struct Seam<T>(pub T);
+
+    /// Makes a lock guard a [`RawStream`], mirroring the impls for `std::io::StdoutLock`
+    #[derive(Debug)]
+    pub struct SeamGuard<G>(pub G);
+
+    macro_rules! forward_write {
+        () => {
+            #[inline]
+            fn write(&mut self, buf: &[u8]) -> std::io::Result<usize> {
+                self.0.write(buf)
+            }
+            #[inline]
+            fn write_vectored(&mut self, bufs: &[std::io::IoSlice<'_>]) -> std::io::Result<usize> {
+                self.0.write_vectored(bufs)
+            }
+            #[inline]
+            fn flush(&mut self) -> std::io::Result<()> {
+                self.0.flush()
+            }
+            #[inline]
+            fn write_all(&mut self, buf: &[u8]) -> std::io::Result<()> {
+                self.0.write_all(buf)
+            }
+            #[inline]
+            fn write_fmt(&mut self, args: std::fmt::Arguments<'_>) -> std::io::Result<()> {
+                self.0.write_fmt(args)
+            }
+        };
+    }
+
+    impl<T: Lockable> std::io::Write for Seam<T> {
+        forward_write!();
+    }
+
+    impl<G: std::io::Write> std::io::Write for SeamGuard<G> {
+        forward_write!();
+    }
+
+    impl<T> private::Sealed for Seam<T> {}
+    impl<G> private::Sealed for SeamGuard<G> {}
+
+    impl<T: Lockable> IsTerminal for Seam<T> {
+        #[inline]
+        fn is_terminal(&self) -> bool {
+            self.0.is_terminal()
+        }
+    }
+
+    impl<G> IsTerminal for SeamGuard<G> {
+        #[inline]
+        fn is_terminal(&self) -> bool {
+            false
+        }
+    }
+
+    impl<T: Lockable> RawStream for Seam<T> {}
+    impl<G: std::io::Write> RawStream for SeamGuard<G> {}
+
+    impl<T: Lockable> AsLockedWrite for Seam<T> {
+        type Write<'w>
+            = SeamGuard<T::Guard<'w>>
+        where
+            Self: 'w;
+
+        #[inline]
+        fn as_locked_write(&mut self) -> Self::Write<'_> {
+            SeamGuard(self.0.lock_guard())
+        }
+    }
+
+    impl<G: std::io::Write> AsLockedWrite for SeamGuard<G> {
+        type Write<'w>
+            = &'w mut Self
+        where
+            Self: 'w;
+
+        #[inline]
+        fn as_locked_write(&mut self) -> Self::Write<'_> {
+            self
+        }
+    }
+}
